@@ -73,6 +73,7 @@ for pid in sorted(P):
                   'C08': ' and, for Decoder.decode and the table setter, by a source-to-Lean translation proved equal to the model (Props.SrcDec, Props.SrcTable)',
                   'C10': ' and, for the table operations, by a source-to-Lean translation proved equal to the model (Props.SrcTable)',
                   'C18': ' and, for Encoder.encode with _to_bytes and _dict_to_iterable over dynamically typed header forms, by a source-to-Lean translation proved equal to the model (Props.SrcEncApi)',
+                  'C20': ' and, structurally, by the source-to-Lean translation of the three classes (no rendering exists for writes to module- or class-level state: Props.SrcEnc, Props.SrcDec, Props.SrcTable)',
                   'C19': ' and, for Encoder.add and HeaderTable.search, by a source-to-Lean translation proved equal to the model (Props.SrcEnc, Props.SrcTable)'}.get(pid, '')),
     })
 m = {
